@@ -133,8 +133,21 @@ func c19Run(c *core.Ctx) *core.Result {
 	// prior destination
 	eo := editOpt{Owners: o.Owners, Types: "fdlpcb", Xattrs: true}
 	pk := core.Pick(R, []string{"empty", "empty", "projection-mutated", "listing-file", "listing-symlink", "listing-dir"})
+	// receive options next to MetadataOnly: merge mode (the destination is not
+	// walked, nothing stale is removed) and a Filter that hides the listing
+	// name from the disk writer (so a stale entry of that name is not deleted
+	// by the transfer itself)
+	rmode := []string{"plain", "merge", "filter-listing"}[R.Weighted([]int{6, 1, 1})]
+	if rmode == "merge" {
+		pk = core.Pick(R, []string{"empty", "listing-file", "listing-symlink", "listing-symlink-inside"})
+	}
+	if rmode == "filter-listing" && pk == "listing-dir" {
+		// (a stale non-empty directory of that name that the writer may not
+		// delete makes the call fail: nothing to judge)
+		pk = "listing-symlink"
+	}
 	prior := &tree.Tree{}
-	if pk != "empty" {
+	if pk != "empty" && rmode != "merge" {
 		for _, e := range src.Entries {
 			keep := selected[e.Path]
 			if !keep {
@@ -159,10 +172,16 @@ func c19Run(c *core.Ctx) *core.Result {
 	case "listing-symlink":
 		prior.Remove(listingName)
 		prior.Put(tree.Entry{Path: listingName, Type: tree.Symlink, Perm: 0777, Target: "../escape-" + fmt.Sprint(c.Index), Mtime: 5})
+	case "listing-symlink-inside":
+		prior.Put(tree.Entry{Path: listingName, Type: tree.Symlink, Perm: 0777, Target: "zz-foreign", Mtime: 5})
 	case "listing-dir":
 		prior.Remove(listingName)
 		prior.Put(tree.Entry{Path: listingName, Type: tree.Dir, Perm: 0755, Mtime: 5})
 		prior.Put(tree.Entry{Path: listingName + "/x", Type: tree.File, Perm: 0644, Mtime: 5, Data: []byte("x")})
+	}
+	if rmode == "merge" {
+		prior.Put(tree.Entry{Path: "zz-foreign", Type: tree.File, Perm: 0640, Mtime: 5, Data: []byte("foreign, must stay")})
+		prior.Sort()
 	}
 	fixGroups(prior)
 	dest := filepath.Join(c.Dir, "dest")
@@ -197,13 +216,21 @@ func c19Run(c *core.Ctx) *core.Result {
 			return r
 		}
 	}
-	desc := fmt.Sprintf("shape=%s selector=%s prior=%s synthetic=%v listingEntry=%v", shape, selKind, pk, synthetic, withListingEntry)
+	desc := fmt.Sprintf("shape=%s selector=%s prior=%s synthetic=%v listingEntry=%v receive=%s", shape, selKind, pk, synthetic, withListingEntry, rmode)
 	r.Sample = map[string]any{"config": desc, "source": trunc(src.Lines(), 25), "selected": trunc(sortedKeys(selected), 25)}
 	r.FP = src.Fingerprint() + desc + fmt.Sprint(len(selected)) + prior.Fingerprint()
-	r.AddSet("configs", fmt.Sprintf("%s/%s/%s", shape, selKind, pk))
+	r.AddSet("configs", fmt.Sprintf("%s/%s/%s/%s", shape, selKind, pk, rmode))
 	nrec := newNotifyRec()
-	res := runSync(syncOpt{Cfg: wire.Config{Cap: core.Pick(R, []int{0, 1, 8, 64}), KeepStats: true}, Src: fs, Dest: dest,
-		Recv: fsutil.ReceiveOpt{MetadataOnly: selFn, NotifyHashed: nrec.fn, ContentHasher: newHasher().fn}})
+	ropt := fsutil.ReceiveOpt{MetadataOnly: selFn, NotifyHashed: nrec.fn, ContentHasher: newHasher().fn}
+	switch rmode {
+	case "merge":
+		ropt.Merge = true
+		r.Count("merge_mode_transfers", 1)
+	case "filter-listing":
+		ropt.Filter = func(p string, st *types.Stat) bool { return filepath.ToSlash(p) != listingName }
+		r.Count("transfers_with_filter_hiding_the_listing_name", 1)
+	}
+	res := runSync(syncOpt{Cfg: wire.Config{Cap: core.Pick(R, []int{0, 1, 8, 64}), KeepStats: true}, Src: fs, Dest: dest, Recv: ropt})
 	if checkHang(r, res, desc) {
 		return r
 	}
@@ -291,7 +318,15 @@ func c19Run(c *core.Ctx) *core.Result {
 	}
 	got.Remove(listingName)
 	oldNoListing := old.Clone()
-	exp, created := expectSync(proj, oldNoListing, got)
+	var exp *tree.Tree
+	var created map[string]bool
+	if rmode == "merge" {
+		oldNoListing.Remove(listingName)
+		exp, created = expectMerge(proj, oldNoListing)
+		oldNoListing = &tree.Tree{} // nothing is compared with the destination: every selected file is requested
+	} else {
+		exp, created = expectSync(proj, oldNoListing, got)
+	}
 	if diffs := tree.Diff(exp, got, syncMask(created)); len(diffs) > 0 {
 		r.ViolateD("projection-diverged", det, "%s: dest (minus the listing) differs from the projection of the source on the selected entries and their ancestors:\n%s", desc, strings.Join(trunc(diffs, 8), "\n"))
 	}
